@@ -26,6 +26,7 @@ func init() {
 		Controls: []Control{
 			{Name: "choice-last-wins", File: f, Old: "\t\tif n, result, err = g.Match(src, ctx); err == nil || (n > 0 && stops[i]) {\n\t\t\treturn\n\t\t}", New: "\t\tif n, result, err = g.Match(src, ctx); err == nil && i == len(p.options)-1 || (n > 0 && stops[i]) {\n\t\t\treturn\n\t\t}", Expect: "choice/first-success-returns"},
 			{Name: "sequence-restarts-at-zero", File: f, Old: "\t\tn1, ret1, err1 := g.Match(src[n:], ctx)\n\t\tif err1 != nil {\n\t\t\tif isDyn(err1) {\n\t\t\t\terr = err1\n\t\t\t} else {\n\t\t\t\treturn n + n1, nil, err1", New: "\t\tn1, ret1, err1 := g.Match(src, ctx)\n\t\tif err1 != nil {\n\t\t\tif isDyn(err1) {\n\t\t\t\terr = err1\n\t\t\t} else {\n\t\t\t\treturn n + n1, nil, err1", Expect: "sequence/item-starts-after-previous"},
+			{Name: "first-set-cache-flag-never-set", File: f, Old: "func (p *Var) First(in []any) (first []any, mayEmpty bool) {\n\telem := p.Elem\n", New: "func (p *Var) First(in []any) (first []any, mayEmpty bool) {\n\tif p.cached {\n\t\treturn in, false\n\t}\n\telem := p.Elem\n", Old2: "\tRetProc any\n}", New2: "\tRetProc any\n\tcached  bool\n}", Expect: "dead-state/Var.cached"},
 			{Name: "option-consumes-on-failure", File: f, Old: "\tif err != nil {\n\t\treturn 0, nil, nil\n\t}\n\treturn\n}\n\nfunc (p *gRepeat01) First", New: "\tif err != nil {\n\t\treturn n, nil, nil\n\t}\n\treturn\n}\n\nfunc (p *gRepeat01) First", Expect: "option/absent-is-nil-and-consumes-nothing"},
 			{Name: "list-flat", File: f, Old: "\treturn Sequence(a, Repeat0(Sequence(b, a)))", New: "\treturn Sequence(a, Repeat0(b), Repeat0(a))", Expect: "list/composition"},
 			{Name: "adjoin-pair-swapped", File: f, Old: "\tresult = []any{ret0, ret1}\n\treturn\n}\n\nfunc (p *gAdjoin) First", New: "\tresult = []any{ret1, ret0}\n\treturn\n}\n\nfunc (p *gAdjoin) First", Expect: "adjoin/pair"},
@@ -44,6 +45,7 @@ func runC29(c *core.Check) {
 		return
 	}
 	info := pk.TypesInfo
+	deadStateRule(c, pk) // e.g. a cached first set whose "may be empty" flag is never stored
 	get := func(name string) *ast.FuncDecl {
 		fd := core.FindFuncDecl(pk, name)
 		if fd == nil {
